@@ -154,6 +154,52 @@ def dict_parse_case(rng):
 # ------------------------------------------------------------------------------------------------------------------------------------------
 # block-level sequence producer (ZSTD_registerSequenceProducer): a producer that replays a valid parse for some blocks and fails on others
 
+def seqreuse_harness(variant="san"):
+    return build.link("zvh_seqreuse", ["zvh_seqreuse.c"], variant)
+
+
+def run_reuse_family(ctx, cseq_lines):
+    """one context living across ZSTD_compressSequences calls: after every call (successful: nothing in between; refused: a session reset,
+    as for every other entry point) a parameter set, ZSTD_compress2, a streaming frame and a second ZSTD_compressSequences on the SAME
+    context must behave exactly as on a context created for the purpose - same verdicts, same bytes - and a parameter reset is legal.
+    Inputs: the valid parses and the corrupted lists of families (1)/(2) (`cseq` lines without dictionary)."""
+    exe = seqreuse_harness("san")
+    lines = ["reuse " + " ".join(l.split(" ")[1:4]) for l in cseq_lines]
+    if not lines:
+        return 0
+    rc, out, err = frames.run_lines(exe, lines)
+    if rc != 0:
+        bad = lines[min(len(out), len(lines) - 1)]
+        ctx.violation("sanitizer build aborted while re-using a context after ZSTD_compressSequences: %s" % err[-600:], dict(kind="monitor", harness="zvh_seqreuse", op=bad[:40000000], stderr=err[-3000:]))
+        return len(out)
+    nv = 0
+    for ln, o in zip(lines, out):
+        msg = reuse_monitor(o)
+        if msg:
+            ctx.violation("context re-used after ZSTD_compressSequences: " + msg, dict(kind="monitor", harness="zvh_seqreuse", op=ln[:40000000], impl=o[:600]))
+            nv += 1
+            if nv >= 3:
+                break
+    return len(out)
+
+
+def reuse_monitor(o):
+    own, _, ref = o.partition(" ref:")
+    a = dict(t.split("=", 1) for t in own.split())
+    b = dict(t.split("=", 1) for t in ref.split())
+    if "params" in a or "params" in b:
+        return None if a.get("params") == b.get("params") else "parameter vector refused on one context only: %s vs %s" % (a.get("params"), b.get("params"))
+    first = "a successful" if a.get("seq", "").startswith("ok") else "a refused (%s, then session reset)" % a.get("seq")
+    for k, what in (("set", "ZSTD_CCtx_setParameter(ZSTD_c_checksumFlag)"), ("c2", "ZSTD_compress2"), ("st", "ZSTD_compressStream2(ZSTD_e_end)"), ("seq2", "a second ZSTD_compressSequences")):
+        if a.get(k) != b.get(k):
+            return "after %s ZSTD_compressSequences frame, %s on the same context gives %s; on a fresh context with the same parameters it gives %s" % (first, what, a.get(k), b.get(k))
+    if a.get("seq2", "").startswith("ok") and a.get("set2") != "ok":
+        return "after a successful ZSTD_compressSequences frame, ZSTD_CCtx_setParameter(ZSTD_c_windowLog, 18) -> %s (no frame is in progress)" % a.get("set2")
+    if a.get("rp") != "ok":
+        return "after a complete ZSTD_compressSequences frame (or a session reset), ZSTD_CCtx_reset(ZSTD_reset_parameters) -> %s" % a.get("rp")
+    return None
+
+
 def seqprod_harness(variant="san"):
     return build.link("zvh_seqprod", ["zvh_seqprod.c"], variant)
 
@@ -1150,6 +1196,10 @@ def correspondence(ctx):
             ctx.violation("model accepts a sequence list the implementation refuses: %s" % c, dict(kind="tie", correspondence="SeqApi.acceptExplicit vs ZSTD_compressSequences", op=ln[:40000000], model_op=mln[:40000000], impl=c, model=m), no_input=True)
         if len(ctx.violations) >= 8:
             break
+    # (2b) the context after a ZSTD_compressSequences call: usable like a fresh one, without a reset after success
+    nreuse = 60 if ctx.quick() else 1500
+    rev = run_reuse_family(ctx, [l for l in lines if len(l) < 120000 and len(l.split(" ")) == 4][:nreuse] + [l for l in cl2 if len(l) < 120000 and len(l.split(" ")) == 4][:nreuse // 2])
+    ev += rev
     # (3) registered block-level sequence producer: replayed parses, failures, fallback
     pcases = producer_cases(ctx, ctx.quick())
     pev, pstats = run_producer_family(ctx, pcases)
@@ -1170,6 +1220,10 @@ def correspondence(ctx):
 
 def replay(ctx, data):
     exe = seqprod_harness("san") if data.get("harness") == "zvh_seqprod" or data.get("op", "").startswith("prod") else frames.harness("san")
+    if data.get("harness") == "zvh_seqreuse":
+        rc, out, err = frames.run_lines(seqreuse_harness("san"), [data["op"]])
+        msg = reuse_monitor(out[0]) if out else "no answer"
+        return dict(violates=bool(msg) or rc != 0, monitor=msg, impl=[o[:600] for o in out], rc=rc, stderr=err[-800:])
     rc, out, err = frames.run_lines(exe, [data["op"]])
     m = (seqprod_model([data["model_op"]]) if data["model_op"].startswith("merge ") else frames.model_lines([data["model_op"]])) if data.get("model_op") else None
     return dict(violates=True, impl=[o[:200] for o in out], model=m, rc=rc, stderr=err[-800:])
